@@ -26,7 +26,13 @@ META = {
             "get_differentials(). A history is non-trivial when it has >= 2 "
             "distinct parameter vectors, a model-mode episode containing an "
             "evaluation, and a raw evaluation after it; distinct = distinct "
-            "histories",
+            "histories. surrogate_run: SurrogateOptimizer (random sampling "
+            "sub-algorithms, 2-3 warm-up FEs, 1-2 model iterations, fancy "
+            "logs on/off, log file on/off) toggles the objective itself; "
+            "afterwards the same object and a fresh one are compared with "
+            "the recomputed real-system values, and initialize(); "
+            "evaluate(x); get_differentials() with the rows of that one "
+            "evaluation; non-trivial = at least one model iteration",
     "assumptions": [
         "the mirror model is plain Python: mode (raw | model), list of "
         "collected blocks; it is updated only from the documented meaning "
